@@ -704,22 +704,29 @@ def _assigned_call(node, name):
 
 
 def _filters_nonneg(f, outname):
-    """the wrapper keeps the entries of the kernel output that are >= 0 (mask `out >= 0` used to index `out`)"""
+    """the wrapper keeps the entries of the kernel output that are >= 0: on the evaluated paths some stored / returned value is
+    `out[out >= 0]` (mask, np.flatnonzero / np.nonzero / np.where positions, np.compress, np.take all read as the same selection)"""
     if outname is None:
         return False
-    masks = {}
-    for n in ast.walk(f):
-        if isinstance(n, ast.Assign) and len(n.targets) == 1 and isinstance(n.targets[0], ast.Name) and isinstance(n.value, ast.Compare) and len(n.value.ops) == 1:
-            l, op, r = n.value.left, n.value.ops[0], n.value.comparators[0]
-            lt, rt = ast.unparse(l), ast.unparse(r)
-            if (lt == outname and isinstance(op, ast.GtE) and rt == "0") or (lt == outname and isinstance(op, ast.Gt) and rt == "-1") or \
-                    (rt == outname and isinstance(op, ast.LtE) and lt == "0") or (rt == outname and isinstance(op, ast.Lt) and lt == "-1"):
-                masks[n.targets[0].id] = n
-    for n in ast.walk(f):
-        if isinstance(n, ast.Subscript) and isinstance(n.value, ast.Name) and n.value.id == outname:
-            sl = n.slice
-            if isinstance(sl, ast.Name) and sl.id in masks:
+    def nonneg_mask(m, base):
+        if not (isinstance(m, tuple) and m and m[0] == 'cmp'):
+            return False
+        op, a_, b_ = m[1], m[2], m[3]
+        try:
+            if a_ == base and ((op == '>=' and pq.same(b_, "0")) or (op == '>' and pq.same(b_, "-1"))):
                 return True
-            if isinstance(sl, ast.Compare) and ast.unparse(sl).replace(" ", "") in (f"{outname}>=0", f"{outname}>-1", f"0<={outname}"):
+            if b_ == base and ((op == '<=' and pq.same(a_, "0")) or (op == '<' and pq.same(a_, "-1"))):
+                return True
+        except Exception:
+            return False
+        return False
+    try:
+        paths = pq.PEval().run(f)
+    except Exception:
+        return False
+    for p_ in paths:
+        pool = [e.val for e in p_.effects if e.val is not None] + [v for v in p_.env.values() if isinstance(v, tuple)] + ([p_.value] if isinstance(p_.value, tuple) else [])
+        for x in pq.find(('tuple', tuple(pool)), lambda y: pq.call_named(y, "getitem") and len(y[2]) == 2):
+            if nonneg_mask(x[2][1], x[2][0]):
                 return True
     return False
